@@ -15,6 +15,7 @@ import (
 	"runtime"
 	"strings"
 	"sync"
+	"sync/atomic"
 	"time"
 
 	"github.com/varlink/go/varlink"
@@ -26,7 +27,7 @@ type c17Case struct {
 	Transport string `json:"transport"`
 	Op        string `json:"op"`      // read | readbytes | write | receive | call | send
 	Mode      string `json:"mode"`    // cancel | deadline | cancel-far (explicit cancel of a context that also has a distant deadline)
-	Instant   string `json:"instant"` // before | idle | partial | after | idle-close (cancel, then the connection is closed at once)
+	Instant   string `json:"instant"` // before | idle | partial | partial-buffered | after | idle-close (cancel, then the connection is closed at once)
 	DelayUS   int    `json:"delay_us"`
 }
 
@@ -185,6 +186,44 @@ func c17One(r *fw.Run, c *c17Case, idx int) {
 	if c.Op == "call" || (c.Instant == "after" && isWrite) {
 		startPeerReader()
 	}
+	if c.Instant == "partial-buffered" {
+		// the start of the next frame arrives in the same segment as a complete frame; reading that complete frame
+		// (live context) leaves the partial one in the library's buffer before the operation under test begins
+		pre := append([]byte(fmt.Sprintf(`{"parameters":{"pre":%d}}`, idx)), 0)
+		e.peer.SetWriteDeadline(time.Now().Add(10 * time.Second))
+		go e.peer.Write(append(append([]byte{}, pre...), c17Partial...))
+		// a context without deadline (so that nothing is armed on the connection), given up after 10 s by a timer
+		pctx, pcancel := context.WithCancel(context.Background())
+		ptimer := time.AfterFunc(10*time.Second, pcancel)
+		defer ptimer.Stop()
+		if c.Op == "receive" {
+			var out json.RawMessage
+			_, perr := recv(pctx, &out)
+			pcancel()
+			if perr != nil {
+				report("live-operation-failed", "preparatory receive of a complete reply (live context) returned %T %v", perr, perr)
+				return
+			}
+			pmu.Lock()
+			peerBuf.Reset()
+			pmu.Unlock()
+			var serr error
+			recv, serr = e.conn.Send(context.Background(), "org.example.M", map[string]int{"n": idx + 1}, 0)
+			if serr != nil {
+				r.Inconclusive("second preparatory Send: %v", serr)
+				return
+			}
+			waitPeer(10*time.Second, func(b []byte) bool { return bytes.IndexByte(b, 0) >= 0 })
+		} else {
+			got, perr := e.rw.ReadBytes(pctx, 0)
+			pcancel()
+			if perr != nil || !bytes.Equal(got, pre) {
+				report("live-operation-failed", "preparatory ReadBytes (live context) of a complete frame returned %q, %v", clip(string(got), 80), perr)
+				return
+			}
+		}
+		r.Count("operations_started_with_a_partial_frame_buffered", 1)
+	}
 	if c.Instant == "partial" {
 		e.peer.SetWriteDeadline(time.Now().Add(10 * time.Second))
 		go e.peer.Write([]byte(c17Partial))
@@ -210,6 +249,7 @@ func c17One(r *fw.Run, c *c17Case, idx int) {
 		err  error
 	}
 	resCh := make(chan opres, 1)
+	var progress int64
 	go func() {
 		var o opres
 		switch c.Op {
@@ -220,7 +260,18 @@ func c17One(r *fw.Run, c *c17Case, idx int) {
 		case "readbytes":
 			o.data, o.err = e.rw.ReadBytes(ctx, 0)
 		case "write":
-			if c.Instant == "after" {
+			if c.Instant == "small-writes" {
+				// consecutive 4000-byte pieces, one Write each, to a peer that does not read: one of them blocks
+				for off := 0; off+4000 <= len(big); off += 4000 {
+					n, err := e.rw.Write(ctx, big[off:off+4000])
+					o.n += n
+					if err != nil {
+						o.err = err
+						break
+					}
+					atomic.AddInt64(&progress, 1)
+				}
+			} else if c.Instant == "after" {
 				o.n, o.err = e.rw.Write(ctx, big[:1000])
 			} else {
 				o.n, o.err = e.rw.Write(ctx, big)
@@ -247,6 +298,19 @@ func c17One(r *fw.Run, c *c17Case, idx int) {
 		if c.Instant == "after" {
 			// wait for completion first
 		} else {
+			if c.Instant == "small-writes" {
+				// cancel only once the writer makes no progress any more (it sits in a Write the peer does not take)
+				last, since := int64(-1), time.Now()
+				for dl := time.Now().Add(10 * time.Second); time.Now().Before(dl); {
+					if p := atomic.LoadInt64(&progress); p != last {
+						last, since = p, time.Now()
+					} else if time.Since(since) > 20*time.Millisecond {
+						break
+					}
+					time.Sleep(time.Millisecond)
+				}
+				r.Max("max_small_writes_before_blocking", last)
+			}
 			time.Sleep(time.Duration(200+c.DelayUS) * time.Microsecond)
 			cancel()
 			cancelIssued = time.Now()
@@ -401,7 +465,7 @@ func c17One(r *fw.Run, c *c17Case, idx int) {
 		}
 		pre := fr.data[:len(fr.data)-len(f2)]
 		inflight := []byte{}
-		if c.Instant == "partial" {
+		if c.Instant == "partial" || c.Instant == "partial-buffered" {
 			inflight = []byte(c17Partial)
 		}
 		if !bytes.HasSuffix(inflight, pre) {
@@ -427,7 +491,7 @@ func c17One(r *fw.Run, c *c17Case, idx int) {
 		}
 	}
 	// client level reuse: a complete call on the same Connection
-	if e.conn != nil && c.Instant != "partial" {
+	if e.conn != nil && c.Instant != "partial" && c.Instant != "partial-buffered" {
 		pmu.Lock()
 		peerBuf.Reset()
 		pmu.Unlock()
@@ -475,9 +539,16 @@ func c17Matrix(rng *rand.Rand, reps int) []*c17Case {
 					continue
 				}
 				for _, mode := range []string{"cancel", "deadline", "cancel-far"} {
-					for _, inst := range []string{"before", "idle", "partial", "after", "idle-close"} {
+					for _, inst := range []string{"before", "idle", "partial", "partial-buffered", "after", "idle-close"} {
 						if inst == "partial" && (op == "read" || op == "write" || op == "send") {
 							continue
+						}
+						if inst == "partial-buffered" && op != "readbytes" && op != "receive" {
+							continue
+						}
+						if inst == "after" && op == "write" {
+							// writes only: many small writes until the peer's buffers are full, then the context ends
+							out = append(out, &c17Case{Transport: tr, Op: op, Mode: mode, Instant: "small-writes", DelayUS: []int{0, 50, 300, 1000, 3000}[rng.Intn(5)]})
 						}
 						if inst == "idle-close" && (mode == "deadline" || client) {
 							continue
@@ -577,13 +648,24 @@ func c17Service(r *fw.Run, transport string, useListen bool) {
 	used := dial()
 	hread := dial()
 	hwrite := dial()
-	if idle == nil || partial == nil || used == nil || hread == nil || hwrite == nil {
+	usedp := dial()
+	if idle == nil || partial == nil || used == nil || hread == nil || hwrite == nil || usedp == nil {
 		r.Inconclusive("could not open the test connections")
 		g.Stop()
 		return
 	}
 	partial.Write([]byte(`{"method":"org.varlink.service.GetI`))
 	roundTrip(used, 10*time.Second)
+	// a call and the start of the next frame in one segment: answered, then the service waits for the rest
+	usedp.SetDeadline(time.Now().Add(10 * time.Second))
+	usedp.Write([]byte("{\"method\":\"org.varlink.service.GetInfo\"}\x00{\"method\":\"org.varlink.serv"))
+	for tmp := make([]byte, 4096); ; {
+		n, err := usedp.Read(tmp)
+		if err != nil || bytes.IndexByte(tmp[:n], 0) >= 0 {
+			break
+		}
+	}
+	usedp.SetDeadline(time.Time{})
 	hread.Write([]byte("{\"method\":\"org.example.block.Read\"}\x00"))
 	hwrite.Write([]byte("{\"method\":\"org.example.block.Write\"}\x00"))
 	for i := 0; i < 2; i++ {
@@ -598,7 +680,7 @@ func c17Service(r *fw.Run, transport string, useListen bool) {
 	time.Sleep(2 * time.Millisecond)
 	// cancel the serving context: every per-connection read and the handlers' I/O must end
 	g.cancel()
-	names := []string{"idle", "mid-frame", "used-then-idle", "handler blocked in Conn.Read", "handler blocked in Conn.Write"}
+	names := []string{"idle", "mid-frame", "used-then-idle", "handler blocked in Conn.Read", "handler blocked in Conn.Write", "used, start of the next frame arrived with the call"}
 	for i, c := range conns {
 		c.SetReadDeadline(time.Now().Add(10 * time.Second))
 		buf := make([]byte, 1<<16)
@@ -692,7 +774,7 @@ func replayC17(r *fw.Run, raw json.RawMessage) {
 func init() {
 	fw.Register(&fw.Engine{
 		ID: "C17", Level: "exploration",
-		Rule: "the matrix operation in {raw Read, raw ReadBytes, raw Write, client receive, client Call, client Send} x transport in {in-memory pipe, unix socketpair, TCP pair (white-box constructor of the library's connection), real Connection over a unix socket, bridge subprocess} x {cancel, deadline} x instant in {before the call, blocked with nothing in flight, blocked after a partial frame was received, after completion} (writes: blocked on a peer that does not read, 8 MiB), each cell repeated with seeded cancel offsets 0..3 ms. Oracle per cell: the operation returns within 10 s of the context's end (else the goroutine dump must show it parked in the library) with context.Canceled / DeadlineExceeded / a timeout error - or, for 'after completion', success with the right bytes; then no goroutine remains inside the library's connection; then a read with a live context must BLOCK (not fail at once on a stale deadline) until the peer sends a fresh frame and must return exactly that frame, optionally preceded by a suffix of the partial frame that was in flight; a follow-up write must deliver its bytes intact after a prefix of the cancelled write; on client transports a complete Call on the same Connection must succeed. Plus the service side: idle, mid-frame and used connections and handlers blocked in Call.Conn Read/Write all end within 10 s of cancelling the serving context, handlers see a context error, active count returns to 0. non-trivial = any instant other than 'after completion'; distinct by cell + offset. Modes: cancel, deadline, and explicit cancel of a context that also has a distant deadline; further instant: cancel followed at once by Close of the connection (goroutine-leak monitor only). Follow-up operations use a context without deadline in two cases out of three; a third operation follows.",
+		Rule: "the matrix operation in {raw Read, raw ReadBytes, raw Write, client receive, client Call, client Send} x transport in {in-memory pipe, unix socketpair, TCP pair (white-box constructor of the library's connection), real Connection over a unix socket, bridge subprocess} x {cancel, deadline} x instant in {before the call, blocked with nothing in flight, blocked after a partial frame was received, blocked with a partial frame already in the library's buffer (it had arrived in one segment with the previous, complete frame), after completion} (writes: blocked on a peer that does not read, one 8 MiB write, or consecutive 4000-byte writes until one blocks), each cell repeated with seeded cancel offsets 0..3 ms. Oracle per cell: the operation returns within 10 s of the context's end (else the goroutine dump must show it parked in the library) with context.Canceled / DeadlineExceeded / a timeout error - or, for 'after completion', success with the right bytes; then no goroutine remains inside the library's connection; then a read with a live context must BLOCK (not fail at once on a stale deadline) until the peer sends a fresh frame and must return exactly that frame, optionally preceded by a suffix of the partial frame that was in flight; a follow-up write must deliver its bytes intact after a prefix of the cancelled write; on client transports a complete Call on the same Connection must succeed. Plus the service side: idle, mid-frame, used and used-with-the-start-of-the-next-frame-in-the-same-segment connections and handlers blocked in Call.Conn Read/Write all end within 10 s of cancelling the serving context, handlers see a context error, active count returns to 0. non-trivial = any instant other than 'after completion'; distinct by cell + offset. Modes: cancel, deadline, and explicit cancel of a context that also has a distant deadline; further instant: cancel followed at once by Close of the connection (goroutine-leak monitor only). Follow-up operations use a context without deadline in two cases out of three; a third operation follows.",
 		Assumptions: []string{"bounded progress: 10 s (normal latency: well under a millisecond)", "the 4 ms 'must still block' window is one-sided: a follow-up read that fails or returns inside it is a violation"},
 		Run:         runC17, Replay: replayC17, CrashIsViolation: true, MinEvals: 50,
 		QuickTimeout: 15 * time.Minute, ThoroughTimeout: 60 * time.Minute,
